@@ -14,6 +14,21 @@
 //! The main generator deliberately avoids the interpreter's known defect shapes (rules R1–R12 of the
 //! task description; each rule is referenced where it is enforced).  `product_cases` does the opposite:
 //! it enumerates sink × run-time type × dynamic route completely.
+//!
+//! Shapes added after seeded faults slipped through (each a weighted option, see `idiom`, `hold_defs`):
+//!   * definitions in DEAD code: a forward-planned function may be kept back (`Scope::hold`) until its block
+//!     — function body, loop body, branch — has ended with an unconditional `return` / `comot` / `next`, so
+//!     that its definition statement is unreachable while the calls before the jump reach it through
+//!     hoisting (marker comment `# hoisted-after-jump`); the hand-written idiom `dead_defs` adds the hosts,
+//!     dead causes (jump, nested block that jumps, `if` whose branches both jump), call sites and helper
+//!     placements the typed generator cannot produce, in particular helpers reachable ONLY through the
+//!     hoisted function (what an over-eager "never called" pruning would drop);
+//!   * `interp_twice`: one string literal with the same `{name}` placeholder several times, read inside a
+//!     function that takes the variable from an enclosing scope and is called under a live same-named
+//!     variable (caller local / parameter / block / loop variable, other activations of a recursion);
+//!     `str_lit` also repeats a placeholder now and then;
+//!   * `long_rows`: strings longer than the largest pool slot (256 bytes) built in a function, returned and
+//!     kept as array elements while storage is allocated through other names.
 #![allow(clippy::too_many_lines, clippy::many_single_char_names)]
 
 use std::sync::atomic::{AtomicBool, Ordering};
@@ -383,6 +398,10 @@ struct Scope {
     /// function names called since the block began: a later definition of such a name in this
     /// block would capture those calls (functions are hoisted)
     called: Vec<String>,
+    /// the functions pending in this block are kept back until the block has ended with an
+    /// unconditional `return` / `comot` / `next`: their definition statements are dead code, the
+    /// calls made before the jump reach them through hoisting only
+    hold: bool,
 }
 
 #[derive(Clone, Debug, Default)]
@@ -410,6 +429,8 @@ struct Func {
     mixed: Option<(Ty, Ty)>,
     /// declared in the env scope with this index
     home: usize,
+    /// a helper this (forward-planned, held-back) function calls first thing in its body
+    must_call: Option<usize>,
 }
 
 /// `Ty` with a `Default`.
@@ -1037,7 +1058,13 @@ impl Gen<'_> {
                     if cands.is_empty() {
                         "-".to_string()
                     } else {
-                        let v = self.pick(&cands);
+                        // now and then the variable this literal already interpolates: one string, the same
+                        // placeholder twice (bindings are recorded per segment)
+                        let again = vars.last().filter(|v| cands.contains(*v)).cloned();
+                        let v = match again {
+                            Some(v) if self.ch(1, 3) => v,
+                            _ => self.pick(&cands),
+                        };
                         if !escaped {
                             vars.push(v.clone());
                         }
@@ -1880,22 +1907,83 @@ impl Gen<'_> {
             }
             self.stmt();
         }
+        if !self.env.last().unwrap().hold {
+            self.flush_pending();
+        }
+    }
+
+    /// Decide whether the block just opened ends with an unconditional jump followed by the definitions of
+    /// the functions planned in it (dead definition statements, reached through hoisting only). Plans one
+    /// function right away so that there usually is something to define. `num`/`den`: how often.
+    fn hold_defs(&mut self, num: u64, den: u64) -> bool {
+        let often = match self.opts.bias {
+            Bias::Control | Bias::Scoping => self.ch(2 * num, den),
+            _ => self.ch(num, den),
+        };
+        if !often || self.left() < 5 || self.cx.depth >= 4 || self.cx.fdepth >= 3 {
+            return false;
+        }
+        self.env.last_mut().unwrap().hold = true;
+        // half of the time with a small helper defined here, in live code, that the held-back function calls:
+        // unless something else happens to call it too, it is reachable only through the hoisted function
+        let helper = if self.ch(1, 2) { self.tiny_helper() } else { None };
+        let planned = self.funcs.len();
+        if self.plan_forward() && planned < self.funcs.len() {
+            self.funcs[planned].must_call = helper;
+        }
+        true
+    }
+    /// `do leaf(n) start return n add 1 end`, tracked like any other finished function.
+    fn tiny_helper(&mut self) -> Option<usize> {
+        let name = self.fn_name(&["leaf", "unit", "base", "aux"])?;
+        let p = self.pick(&["n", "m", "k"]).to_string();
+        let fi = self.add_fn(Func {
+            name: name.clone(),
+            params: vec![(p.clone(), Ty::Num)],
+            ret: Ty2(Ty::Num),
+            work: 2,
+            callable: true,
+            defined: true,
+            ..Func::default()
+        });
+        self.line(&format!("do {name}({p}) start return {p} add 1 end"));
+        self.count();
+        Some(fi)
+    }
+    /// The held-back definitions of the current block, now that it has ended with a jump.
+    fn release_defs(&mut self) {
+        self.env.last_mut().unwrap().hold = false;
+        if self.env.last().unwrap().pending.is_empty() {
+            return;
+        }
+        if !self.out.ends_with('\n') {
+            self.out.push('\n');
+        }
+        self.out.push_str(&"    ".repeat(self.indent));
+        self.out.push_str("# hoisted-after-jump\n");
+        if self.ch(1, 4) && self.can_out(1) {
+            self.line("shout(\"never\")"); // a dead statement among the dead definitions
+        }
         self.flush_pending();
+    }
+    fn holding(&self) -> bool {
+        let sc = self.env.last().unwrap();
+        sc.hold && !sc.pending.is_empty()
     }
 
     fn stmt(&mut self) {
-        if !self.env.last().unwrap().pending.is_empty() && self.ch(1, 4) {
+        if !self.env.last().unwrap().pending.is_empty() && !self.env.last().unwrap().hold && self.ch(1, 4) {
             self.define_pending();
             return;
         }
         let w: [u64; 11] = match self.opts.bias {
             // decl assign idx arrm shout if loop block fn call idiom
-            Bias::Arrays => [14, 6, 16, 18, 12, 7, 7, 1, 6, 9, 6],
-            Bias::Scoping => [18, 12, 3, 4, 12, 7, 6, 6, 18, 16, 7],
-            Bias::Strings => [20, 16, 4, 5, 18, 7, 7, 1, 7, 10, 6],
-            Bias::Control => [12, 12, 4, 5, 12, 18, 16, 3, 6, 9, 3],
-            Bias::Numbers => [18, 16, 4, 4, 16, 9, 8, 1, 8, 12, 3],
-            Bias::Mixed => [16, 12, 6, 8, 14, 9, 8, 2, 9, 12, 5],
+            Bias::Arrays => [14, 6, 16, 18, 12, 7, 7, 1, 6, 9, 7],
+            Bias::Scoping => [18, 12, 3, 4, 12, 7, 6, 6, 18, 16, 10],
+            Bias::Strings => [20, 16, 4, 5, 18, 7, 7, 1, 7, 10, 7],
+            Bias::Control => [12, 12, 4, 5, 12, 18, 16, 3, 6, 9, 6],
+            Bias::Numbers => [18, 16, 4, 4, 16, 9, 8, 1, 8, 12, 4],
+            Bias::Mixed => [16, 12, 6, 8, 14, 9, 8, 2, 9, 12, 7],
         };
         let mut r = self.rng.below(w.iter().sum());
         let mut kind = 0;
@@ -2226,14 +2314,44 @@ impl Gen<'_> {
             let before = self.env.clone();
             self.push_scope();
             self.cx.depth += 1;
+            let can_jump = self.cx.loops_fn > 0 || self.cx.fn_idx.is_some();
+            let held = can_jump && self.hold_defs(1, 12);
             let k = 1 + self.below(3);
             self.block_body(k);
-            self.terminator();
+            if held && self.holding() {
+                self.jump();
+            } else {
+                self.terminator();
+            }
+            if held {
+                self.release_defs();
+            }
             self.cx.depth -= 1;
             self.pop_scope_join(&before);
             self.close();
         }
         true
+    }
+
+    /// An unconditional `comot` / `next` / `return` (one of those possible here).
+    fn jump(&mut self) {
+        if self.cx.loops_fn > 0 && (self.cx.fn_idx.is_none() || self.ch(1, 2)) {
+            let w = if self.cx.no_next || self.ch(1, 2) { "comot" } else { "next" };
+            self.line(w);
+            self.count();
+        } else {
+            self.ret_followed();
+        }
+    }
+    /// A `return` that other statements follow: `return` alone would take the next statement as its
+    /// expression (only `end` ends a bare `return`).
+    fn ret_followed(&mut self) {
+        if self.cx.ret == Ty::Null {
+            self.line("return null");
+            self.count();
+        } else {
+            self.ret_stmt();
+        }
     }
 
     /// `comot` / `next` / `return` as the last statement of a conditional block.
@@ -2326,6 +2444,7 @@ impl Gen<'_> {
             self.count();
         }
         let n = 1 + self.below(4);
+        let held = self.hold_defs(1, 10);
         if self.ch(1, 3) && self.left() >= 3 {
             self.if_stmt(); // a conditional `comot` / `next` / `return` at a random iteration
         }
@@ -2333,6 +2452,15 @@ impl Gen<'_> {
         if !first {
             self.line(&step);
             self.count();
+        }
+        if held {
+            if self.holding() {
+                // the body ends with a jump of its own; what the block still owes comes after it
+                let w = if self.ch(1, 2) { "next" } else { "comot" };
+                self.line(w);
+                self.count();
+            }
+            self.release_defs();
         }
         self.pop_scope_join(&before);
         self.cx = saved_cx;
@@ -2522,6 +2650,11 @@ impl Gen<'_> {
     /// Body of an ordinary function: a few statements and the final `return`.
     fn plain_body(&mut self) {
         let f = self.funcs[self.cx.fn_idx.unwrap()].clone();
+        if let Some(h) = f.must_call
+            && self.can_call(h)
+        {
+            self.call_stmt_of(h);
+        }
         if self.ch(1, 3) && self.can_out(1) {
             // make the call visible in the output (short-circuit and evaluation-order tests)
             let mut text = f.name.clone();
@@ -2537,10 +2670,16 @@ impl Gen<'_> {
         if self.ch(1, 4) && self.left() >= 4 {
             self.loop_stmt(); // loops inside functions: `return` / `comot` / `next` in a callee's loop
         }
+        let held = self.hold_defs(1, 6);
         let k = 1 + self.below(4);
         self.block_body(k);
-        if self.cx.ret != Ty::Null {
+        if held && self.holding() {
+            self.ret_followed();
+        } else if self.cx.ret != Ty::Null {
             self.ret_stmt();
+        }
+        if held {
+            self.release_defs(); // after the final `return`
         }
     }
 
@@ -2974,13 +3113,36 @@ impl Gen<'_> {
 impl Gen<'_> {
     fn idiom(&mut self) -> bool {
         // the two scoping shapes: always under the scoping bias half of the time, else now and then
-        let scoping = match self.opts.bias {
-            Bias::Scoping => self.ch(3, 5),
-            Bias::Arrays => self.ch(1, 4),
+        // definitions in dead code (after `return` / `comot` / `next`), reached through hoisting
+        let dead = match self.opts.bias {
+            Bias::Control => self.ch(2, 5),
+            Bias::Scoping | Bias::Mixed => self.ch(1, 4),
             _ => self.ch(1, 6),
         };
+        if dead {
+            return self.dead_defs();
+        }
+        // long strings (around and above the largest pool slot) built in functions, returned and kept in arrays
+        let long = match self.opts.bias {
+            Bias::Arrays => self.ch(1, 4),
+            Bias::Strings => self.ch(1, 5),
+            Bias::Scoping | Bias::Control | Bias::Numbers => self.ch(1, 12),
+            Bias::Mixed => self.ch(1, 7),
+        };
+        if long {
+            return self.long_rows();
+        }
+        let scoping = match self.opts.bias {
+            Bias::Scoping => self.ch(2, 3),
+            Bias::Arrays => self.ch(1, 4),
+            _ => self.ch(1, 5),
+        };
         if scoping {
-            return if self.ch(1, 2) { self.shadowed_capture() } else { self.fn_shadow() };
+            return match self.below(5) {
+                0 | 1 => self.shadowed_capture(),
+                2 | 3 => self.fn_shadow(),
+                _ => self.interp_twice(),
+            };
         }
         match self.below(7) {
             0 | 1 => self.copy_write_read(),
@@ -3154,6 +3316,628 @@ impl Gen<'_> {
         self.note_out(outs + 2);
         self.stmts += 10;
         let m = self.cx.mult * 30;
+        match self.fx.last_mut() {
+            Some(fx) => fx.work += m,
+            None => self.est_work += m,
+        }
+        true
+    }
+
+
+    /// Emit hand-written lines: `>` opens a block with the rest as its head, `<` closes one.
+    fn emit_lines(&mut self, lines: &[String]) {
+        for l in lines {
+            if let Some(head) = l.strip_prefix('>') {
+                self.open(head);
+            } else if l == "<" {
+                self.close();
+            } else {
+                self.line(l);
+            }
+        }
+    }
+
+    /// C06 / C03 / C04: a function whose DEFINITION STATEMENT is dead code — it follows an unconditional
+    /// `return` / `comot` / `next` of its block (directly, after a nested block that jumps, or after an
+    /// `if` whose two branches jump) — is still hoisted when the block is entered and is called before
+    /// the jump: directly, from a nested block / branch / loop, inside an expression, through another
+    /// hoisted function defined in the same dead code, or through a function defined before the jump.
+    /// Its helpers are called from nowhere else: they are reachable only through the hoisted function.
+    /// Hosts: a function body, a loop body, a loop inside a function, each also with the whole thing one
+    /// block or branch deeper. A block of its own with hand-written names; the generator tracks none of it.
+    fn dead_defs(&mut self) -> bool {
+        if !self.can_out(24) || self.cx.depth >= 4 || self.cx.loops_all >= 3 {
+            return false;
+        }
+        let late = self.pick(&["late", "inner", "tail", "after"]).to_string();
+        let aid = self.pick(&["aid", "helper", "util", "leaf"]).to_string();
+        let tot = self.pick(&["tot", "n", "cnt", "acc"]).to_string();
+        // 0 function body, 1 `jasi (true)` body, 2 counted loop body, 3 counted loop inside a function
+        let host = self.below(4);
+        // 0 directly in the host block, 1 in a plain block inside it, 2 in a branch inside it
+        let nest = self.pick(&[0, 0, 1, 2]);
+        // 0 the jump itself, 1 a nested block that jumps, 2 an `if` whose two branches jump
+        let cause = self.pick(&[0, 0, 0, 1, 2]);
+        // where the helper lives: 0 before the host, 1 after the host (live, forward), 2 in the enclosing
+        // function before the jump, 3 in the same dead code as the hoisted function
+        let mut aid_at = self.pick(&[0, 0, 0, 1, 1, 2, 2, 3]);
+        if aid_at == 2 && !(host == 0 || host == 3) {
+            aid_at = 0;
+        }
+        let chain = self.ch(1, 3); // hoisted -> via -> helper
+        let shadowed = self.ch(1, 3); // an outer function of the same name as the hoisted one
+        let also_live = self.ch(1, 6); // the helper is called from live code too
+        let jumps: &[&str] = match host {
+            0 => &["return"],
+            1 => &["comot"],
+            2 => &["comot", "next"],
+            _ => &["return", "comot", "next"],
+        };
+        // `followed`: other statements follow in the same block (a bare `return` would swallow the next one)
+        let jump_text = |g: &mut Self, followed: bool| -> String {
+            let j = g.pick(jumps);
+            if j == "return" {
+                match g.below(4) {
+                    0 if !followed => "return".to_string(),
+                    0 => "return null".to_string(),
+                    _ => format!("return {}", g.below(9)),
+                }
+            } else {
+                j.to_string()
+            }
+        };
+        let mid = if chain { "via" } else { aid.as_str() }.to_string();
+        let aid_def: Vec<String> = vec![
+            format!(">do {aid}(q) start"),
+            format!("{tot} get {tot} add q"),
+            format!("shout(\"{aid} {{q}}\")"),
+            "return q add 1".to_string(),
+            "<".to_string(),
+        ];
+        let via_def = format!("do via(q) start return {aid}(q) add 10 end");
+        // the hoisted function
+        let mut late_def: Vec<String> = vec![format!(">do {late}(q) start")];
+        match self.below(6) {
+            0 => late_def.push(format!("{mid}(q)")),
+            1 => late_def.push(format!("return {mid}(q)")),
+            2 => {
+                late_def.push(format!("shout(\"{late} {{q}} {{q}}\")"));
+                late_def.push(format!("return {mid}(q) add 1"));
+            }
+            3 => {
+                late_def.push(format!(">if to say (q pass 0) start"));
+                late_def.push(format!("return {late}(q minus 1)"));
+                late_def.push("<".to_string());
+                late_def.push(format!("return {mid}(q)"));
+            }
+            4 => {
+                late_def.push(format!("do deep(r) start return {mid}(r) end"));
+                late_def.push("return deep(q)".to_string());
+            }
+            _ => {
+                late_def.push(format!(">if to say (q small pass 100) start"));
+                late_def.push(format!("{mid}(q)"));
+                late_def.push("<".to_string());
+            }
+        }
+        late_def.push("<".to_string());
+        // calls made before the jump
+        let mut calls: Vec<String> = Vec::new();
+        let mut dead: Vec<String> = Vec::new(); // what follows the jump
+        let mut pre: Vec<String> = Vec::new(); // definitions before the jump, in the same block
+        let ncalls = 1 + self.below(2);
+        let mut relay = false;
+        for _ in 0..ncalls {
+            let a = self.below(3);
+            match self.below(8) {
+                0 | 1 => calls.push(format!("{late}({a})")),
+                2 => calls.extend([">start".to_string(), format!("{late}({a})"), "<".to_string()]),
+                3 => calls.extend([format!(">if to say ({a} small pass 5) start"), format!("shout({late}({a}))"), "<".to_string()]),
+                4 => {
+                    relay = true;
+                    calls.push(format!("shout(relay({a}))"));
+                }
+                5 => {
+                    if pre.is_empty() {
+                        pre.push(format!("do before(q) start return {late}(q) end"));
+                    }
+                    calls.push(format!("shout(before({a}))"));
+                }
+                6 => calls.extend([format!("make r get {late}({a})"), "shout(r)".to_string()]),
+                _ => calls.extend([
+                    "make j get 0".to_string(),
+                    ">jasi (j small pass 2) start".to_string(),
+                    "j get j add 1".to_string(),
+                    format!("{late}(j)"),
+                    "<".to_string(),
+                ]),
+            }
+        }
+        let relay_def = format!("do relay(q) start return {late}(q) end");
+        if relay && self.ch(1, 2) {
+            dead.push(relay_def.clone());
+        }
+        if self.ch(1, 4) {
+            dead.push("shout(\"dead\")".to_string());
+        }
+        dead.extend(late_def);
+        if relay && !dead.contains(&relay_def) {
+            dead.push(relay_def);
+        }
+        if aid_at == 3 {
+            if chain {
+                dead.push(via_def.clone());
+            }
+            dead.extend(aid_def.clone());
+        }
+        if self.ch(1, 4) {
+            dead.push(format!("do never() start return {mid}(0) end"));
+        }
+        // the jump
+        let mut jump: Vec<String> = Vec::new();
+        match cause {
+            0 => jump.push(jump_text(self, true)),
+            1 => {
+                jump.push(">start".to_string());
+                if self.ch(1, 2) {
+                    jump.push("shout(\"out\")".to_string());
+                }
+                jump.push(jump_text(self, false));
+                jump.push("<".to_string());
+            }
+            _ => {
+                jump.push(format!(">if to say ({tot} small pass 3) start"));
+                jump.push(jump_text(self, false));
+                jump.push("<".to_string());
+                jump.push(">if not so start".to_string());
+                jump.push(jump_text(self, false));
+                jump.push("<".to_string());
+            }
+        }
+        // assemble
+        let mut t: Vec<String> = vec![">start".to_string(), format!("make {tot} get 0")];
+        if shadowed {
+            t.push(format!("do {late}(q) start return 0 minus 1 end"));
+        }
+        if aid_at == 0 {
+            t.extend(aid_def.clone());
+            if chain {
+                t.push(via_def.clone());
+            }
+        }
+        match host {
+            0 => t.push(">do outer(p) start".to_string()),
+            1 => t.push(">jasi (true) start".to_string()),
+            2 => t.extend(["make i get 0".to_string(), ">jasi (i small pass 2) start".to_string(), "i get i add 1".to_string()]),
+            _ => t.extend([
+                ">do outer(p) start".to_string(),
+                "make i get 0".to_string(),
+                ">jasi (i small pass p) start".to_string(),
+                "i get i add 1".to_string(),
+            ]),
+        }
+        if aid_at == 2 {
+            // live, in the enclosing function (host 3: in its loop body, hoisted once per iteration)
+            t.extend(aid_def.clone());
+            if chain {
+                t.push(via_def.clone());
+            }
+        }
+        match nest {
+            1 => t.push(">start".to_string()),
+            2 => t.push(">if to say (true) start".to_string()),
+            _ => {}
+        }
+        t.extend(pre);
+        t.extend(calls);
+        t.extend(jump);
+        t.extend(dead);
+        if nest != 0 {
+            t.push("<".to_string());
+            if self.ch(1, 2) {
+                t.push("shout(\"past\")".to_string());
+            }
+        }
+        if host == 1 {
+            t.push("comot".to_string()); // whatever happened above, the loop ends here
+        }
+        t.push("<".to_string()); // loop body / function body
+        match host {
+            0 => t.push(self.pick(&["shout(outer(1))", "outer(1)", "make r get outer(2)"]).to_string()),
+            3 => {
+                t.push("return i".to_string());
+                t.push("<".to_string());
+                t.push(self.pick(&["shout(outer(2))", "outer(1)", "shout(outer(1))"]).to_string());
+            }
+            _ => {}
+        }
+        if aid_at == 1 {
+            t.extend(aid_def.clone());
+            if chain {
+                t.push(via_def.clone());
+            }
+        }
+        if also_live && aid_at != 3 && aid_at != 2 {
+            t.push(format!("{aid}(7)"));
+        }
+        if shadowed {
+            t.push(format!("shout({late}(3))"));
+        }
+        t.push(format!("shout({tot})"));
+        t.push("<".to_string());
+        self.push_scope();
+        self.emit_lines(&t);
+        self.env.pop();
+        self.note_out(24);
+        self.stmts += 12;
+        let m = self.cx.mult * 60;
+        match self.fx.last_mut() {
+            Some(fx) => fx.work += m,
+            None => self.est_work += m,
+        }
+        true
+    }
+
+
+    /// C05 / C02: strings LONGER than the largest pool slot (256 bytes; lengths 250..340 and now and then ~1000)
+    /// are built at run time inside a function (loop concatenation, doubling + `slice`, `join`, upper-casing),
+    /// RETURNED, and kept as array elements (push, index assignment, array literal, nested array, through a
+    /// variable, through a function that stores its parameter in a captured array, in a copy of the array);
+    /// then storage is allocated through other names (numbers pushed to another array, more long strings built
+    /// and dropped) and each kept element is compared with the same text built in place, measured and (one
+    /// time in three) printed. Every element keeps its value until it is itself overwritten. A block of its own
+    /// with hand-written names; the generator tracks none of it.
+    fn long_rows(&mut self) -> bool {
+        if !self.can_out(14) || self.cx.depth >= 4 || self.cx.loops_all >= 2 || self.cx.mult > 4 {
+            return false;
+        }
+        let piece = self.pick(&[" 0123456789", "x", "ab", "Naija "]);
+        let how = self.below(4);
+        // the argument that makes the result 250..340 bytes long (sometimes short, sometimes ~1000)
+        let len = match self.below(10) {
+            0 => 40 + self.below(100),
+            1 => 900 + self.below(200),
+            _ => self.pick(&[250, 255, 256, 257, 258, 264, 300, 336]),
+        };
+        let len = if len > 400 && piece.len() < 6 && how != 1 { 300 } else { len };
+        let n = match how {
+            1 => len,
+            2 => (len / (piece.len() + 1)).max(1),
+            _ => len.saturating_sub(4).div_ceil(piece.len()),
+        };
+        let mut t: Vec<String> = vec![">start".to_string()];
+        let build = |acc: &str, head: &str, count: &str| -> Vec<String> {
+            vec![
+                format!("make {acc} get {head}"),
+                "make k get 0".to_string(),
+                format!(">jasi (k small pass {count}) start"),
+                format!("{acc} get {acc} add \"{piece}\""),
+                "k get k add 1".to_string(),
+                "<".to_string(),
+            ]
+        };
+        t.push(">do line(i, n) start".to_string());
+        match how {
+            0 => {
+                t.extend(build("t", "\"row{i}:\"", "n"));
+                t.push("return t".to_string());
+            }
+            1 => {
+                t.push("make t get \"d{i}.\"".to_string());
+                t.push(">jasi (t.len() small pass n) start".to_string());
+                t.push("t get t add t".to_string());
+                t.push("<".to_string());
+                t.push("return t.slice(0, n)".to_string());
+            }
+            2 => {
+                t.push("make parts get [\"j{i}\"]".to_string());
+                t.push("make k get 0".to_string());
+                t.push(">jasi (k small pass n) start".to_string());
+                t.push(format!("parts.push(\"{piece}\")"));
+                t.push("k get k add 1".to_string());
+                t.push("<".to_string());
+                t.push("return parts.join(\"/\")".to_string());
+            }
+            _ => {
+                t.extend(build("t", "\"row{i}:\"", "n"));
+                t.push("return t.to_uppercase()".to_string());
+            }
+        }
+        t.push("<".to_string());
+        // the same text without a call: `want` for row i
+        let want = |i: usize| -> Vec<String> {
+            let mut w = Vec::new();
+            match how {
+                0 | 3 => {
+                    w.extend(build("want", &format!("\"row{i}:\""), &n.to_string()));
+                    if how == 3 {
+                        w.push("want get want.to_uppercase()".to_string());
+                    }
+                }
+                1 => {
+                    w.push(format!("make want get \"d{i}.\""));
+                    w.push(format!(">jasi (want.len() small pass {n}) start"));
+                    w.push("want get want add want".to_string());
+                    w.push("<".to_string());
+                    w.push(format!("want get want.slice(0, {n})"));
+                }
+                _ => {
+                    w.push(format!("make want get \"j{i}\""));
+                    w.push("make k get 0".to_string());
+                    w.push(format!(">jasi (k small pass {n}) start"));
+                    w.push(format!("want get want add \"/{piece}\""));
+                    w.push("k get k add 1".to_string());
+                    w.push("<".to_string());
+                }
+            }
+            w
+        };
+        t.push("make rows get []".to_string());
+        t.push("make nums get []".to_string());
+        // places that hold the result of line(i, n): (expression, i)
+        let mut places: Vec<(String, usize)> = Vec::new();
+        let stores = 1 + self.below(3);
+        let mut nrows = 0;
+        for i in 0..stores {
+            let call = format!("line({i}, {n})");
+            match self.below(8) {
+                0 | 1 => {
+                    t.push(format!("rows.push({call})"));
+                    places.push((format!("rows[{nrows}]"), i));
+                    nrows += 1;
+                }
+                2 => {
+                    t.push("rows.push(\"\")".to_string());
+                    t.push(format!("rows[{nrows}] get {call}"));
+                    places.push((format!("rows[{nrows}]"), i));
+                    nrows += 1;
+                }
+                3 if i == 0 => {
+                    t.push(format!("rows get [{call}, \"mid\"]"));
+                    places.push(("rows[0]".to_string(), i));
+                    nrows = 2;
+                }
+                4 => {
+                    t.push(format!("make s{i} get {call}"));
+                    t.push(format!("rows.push(s{i})"));
+                    places.push((format!("s{i}"), i));
+                    places.push((format!("rows[{nrows}]"), i));
+                    nrows += 1;
+                }
+                5 => {
+                    t.push(format!("make grid{i} get [[1], []]"));
+                    t.push(format!("grid{i}[1].push({call})"));
+                    places.push((format!("grid{i}[1][0]"), i));
+                }
+                6 => {
+                    t.push(format!("do keep{i}(v) start rows.push(v) end"));
+                    t.push(format!("keep{i}({call})"));
+                    places.push((format!("rows[{nrows}]"), i));
+                    nrows += 1;
+                }
+                _ => {
+                    t.push(format!("rows.push({call})"));
+                    t.push(format!("make kept{i} get rows"));
+                    places.push((format!("rows[{nrows}]"), i));
+                    places.push((format!("kept{i}[{nrows}]"), i));
+                    nrows += 1;
+                }
+            }
+            if self.ch(1, 2) {
+                // allocations through another name
+                let k = 20 + self.below(30);
+                t.push("make c get 0".to_string());
+                t.push(format!(">jasi (c small pass {k}) start"));
+                t.push("nums.push(c)".to_string());
+                t.push("c get c add 1".to_string());
+                t.push("<".to_string());
+            }
+        }
+        if self.ch(1, 2) {
+            t.push(format!("make junk get line(9, {n})"));
+            t.push("nums.push(junk.len())".to_string());
+        }
+        t.push("nums.push([nums.len(), [1, 2]])".to_string());
+        let print = self.ch(1, 3);
+        let mut outs = 1;
+        let mut last = usize::MAX;
+        for (place, i) in places.iter().take(4) {
+            if *i != last {
+                t.extend(want(*i));
+                last = *i;
+            }
+            t.push(format!("shout({place} na want)"));
+            t.push(format!("shout({place}.len())"));
+            outs += 2;
+            if print {
+                t.push(format!("shout({place})"));
+                outs += 1;
+            }
+        }
+        t.push("shout(rows.len() add nums.len())".to_string());
+        t.push("<".to_string());
+        self.push_scope();
+        self.emit_lines(&t);
+        self.env.pop();
+        self.note_out(outs);
+        self.stmts += 12;
+        let m = self.cx.mult * (200 + 4 * n.min(1100));
+        match self.fx.last_mut() {
+            Some(fx) => fx.work += m,
+            None => self.est_work += m,
+        }
+        true
+    }
+
+    /// C04: ONE string literal with the same `{name}` placeholder several times, evaluated inside a
+    /// function that takes the variable from an enclosing scope (block variable, local or parameter of an
+    /// enclosing function), called — directly, through other functions, from a recursion — by code whose own
+    /// live scope holds a same-named variable (local, parameter, block or loop variable) that is read too.
+    /// Every placeholder denotes the lexically enclosing variable. Hand-written names, a block of its own.
+    fn interp_twice(&mut self) -> bool {
+        if !self.can_out(12) || self.cx.depth >= 4 || self.cx.loops_all >= 3 {
+            return false;
+        }
+        let x = self.pick(&["who", "tag", "n", "s", "msg", "k", "w", "flag"]).to_string();
+        let vals: [&str; 4] = match self.below(3) {
+            0 => ["\"G\"", "\"C\"", "\"M\"", "\"B\""],
+            1 => ["1", "2", "3", "4"],
+            _ => ["\"out\"", "7", "true", "[1]"],
+        };
+        let tmpl = self.pick(&[
+            "{@} and {@}",
+            "{@}{@}",
+            "<{@}|{@}|{@}>",
+            "{ @ } + {@}",
+            "{@}-{o}-{@}",
+            "{o}:{@}:{o}:{@}",
+            "{@} {{@}} {@}",
+        ]);
+        let text = format!("\"{}\"", tmpl.replace('@', &x).replace("{o}", "{v}"));
+        // how the function uses the string (v is its parameter)
+        let body: Vec<String> = match self.below(6) {
+            0 => vec![format!("shout({text})")],
+            1 => vec![format!("return {text}")],
+            2 => vec![format!("make t get {text}"), "shout(t)".to_string(), "return t".to_string()],
+            3 => vec![format!("shout({text}.len())"), format!("return {text} add \"!\"")],
+            4 => vec![">if to say (v na v) start".to_string(), format!("return {text}"), "<".to_string(), "return \"\"".to_string()],
+            _ => vec![format!("shout([{text}, {x}])"), format!("return \"{{{x}}}\" add {text}")],
+        };
+        let mut show: Vec<String> = vec![">do show(v) start".to_string()];
+        show.extend(body);
+        show.push("<".to_string());
+        // 0 block variable, 1 parameter of an enclosing function, 2 local of an enclosing function
+        let src = self.below(3);
+        // the code that holds the same-named variable and (transitively) calls show
+        let path = self.below(7);
+        let mut user: Vec<String> = Vec::new();
+        let mut go: Vec<String> = Vec::new();
+        let callee = if self.ch(1, 3) {
+            user.push("do relay(v) start return show(v) end".to_string());
+            "relay"
+        } else {
+            "show"
+        };
+        match path {
+            0 => {
+                user.extend([
+                    ">do caller() start".to_string(),
+                    format!("make {x} get {}", vals[1]),
+                    format!("shout({x})"),
+                    format!("shout({callee}(1))"),
+                    format!("shout({x})"),
+                    "<".to_string(),
+                ]);
+                go.push("caller()".to_string());
+            }
+            1 => {
+                user.extend([
+                    format!(">do caller({x}) start"),
+                    format!("shout({x})"),
+                    format!("shout({callee}({x}))"),
+                    "<".to_string(),
+                ]);
+                go.push(format!("caller({})", vals[1]));
+            }
+            2 => {
+                // every activation of walk has its own variable of that name
+                user.extend([
+                    ">do walk(d) start".to_string(),
+                    format!("make {x} get d"),
+                    ">if to say (d pass 0) start".to_string(),
+                    "walk(d minus 1)".to_string(),
+                    "<".to_string(),
+                    format!("shout(\"{{{x}}}: \" add to_string({callee}(d)))"),
+                    "<".to_string(),
+                ]);
+                go.push("walk(1)".to_string());
+            }
+            3 => {
+                // a block variable of the caller
+                user.extend([
+                    ">do caller() start".to_string(),
+                    ">start".to_string(),
+                    format!("make {x} get {}", vals[1]),
+                    format!("shout({x})"),
+                    format!("shout({callee}(2))"),
+                    "<".to_string(),
+                    "<".to_string(),
+                ]);
+                go.push("caller()".to_string());
+            }
+            4 => {
+                // no function in between: a nested block shadows the name and calls
+                go.extend([
+                    ">start".to_string(),
+                    format!("make {x} get {}", vals[1]),
+                    format!("shout({x})"),
+                    format!("shout({callee}(3))"),
+                    "<".to_string(),
+                ]);
+            }
+            5 => {
+                // a loop-body variable, two iterations
+                go.extend([
+                    "make i get 0".to_string(),
+                    ">jasi (i small pass 2) start".to_string(),
+                    "i get i add 1".to_string(),
+                    format!("make {x} get i"),
+                    format!("shout({callee}({x}))"),
+                    "<".to_string(),
+                ]);
+            }
+            _ => {
+                // two functions deep, each with a variable of that name
+                user.extend([
+                    ">do mid() start".to_string(),
+                    format!("make {x} get {}", vals[2]),
+                    format!("shout({callee}({x}))"),
+                    format!("return {x}"),
+                    "<".to_string(),
+                    ">do caller() start".to_string(),
+                    format!("make {x} get {}", vals[1]),
+                    "shout(mid())".to_string(),
+                    format!("shout({x})"),
+                    "<".to_string(),
+                ]);
+                go.push("caller()".to_string());
+            }
+        }
+        let mut t: Vec<String> = vec![">start".to_string()];
+        match src {
+            0 => {
+                t.push(format!("make {x} get {}", vals[0]));
+                t.extend(show);
+                t.extend(user);
+                t.extend(go);
+                t.push(format!("shout({x})"));
+            }
+            _ => {
+                // show (and its users) nested in a function that owns the variable
+                if src == 1 {
+                    t.push(format!(">do owner({x}) start"));
+                } else {
+                    t.push(">do owner() start".to_string());
+                    t.push(format!("make {x} get {}", vals[0]));
+                }
+                t.extend(show);
+                t.extend(user);
+                t.extend(go);
+                t.push(format!("return {x}"));
+                t.push("<".to_string());
+                // the outer caller of owner has a variable of that name as well
+                t.push(format!("make {x} get {}", vals[3]));
+                t.push(if src == 1 { format!("shout(owner({}))", vals[0]) } else { "shout(owner())".to_string() });
+                t.push(format!("shout({x})"));
+            }
+        }
+        t.push("<".to_string());
+        self.push_scope();
+        self.emit_lines(&t);
+        self.env.pop();
+        self.note_out(12);
+        self.stmts += 10;
+        let m = self.cx.mult * 40;
         match self.fx.last_mut() {
             Some(fx) => fx.work += m,
             None => self.est_work += m,
